@@ -619,15 +619,26 @@ def check_sections(out, c, tmp, run_cli):
         out.cls('custom-class')
         py = os.path.join(tmp, 'mytemp.py')
         with open(py, 'w') as f:
-            f.write('import numpy as np\nfrom taurex.temperature import TemperatureProfile\n\n\nclass MyIso(TemperatureProfile):\n'
+            f.write('import numpy as np\nfrom taurex.temperature import TemperatureProfile\nfrom taurex.planet import Planet\n\n\nclass MyIso(TemperatureProfile):\n'
                     '    def __init__(self, T=777.0, extra=2.0):\n        super().__init__("MyIso")\n        self.T = T\n        self.extra = extra\n\n'
                     '    @property\n    def profile(self):\n        return np.ones(self.nlayers) * self.T\n\n'
-                    '    @classmethod\n    def input_keywords(cls):\n        return ["myiso"]\n')
+                    '    @classmethod\n    def input_keywords(cls):\n        return ["myiso"]\n\n\n'
+                    'class MyPlanet(Planet):\n'
+                    '    def __init__(self, planet_mass=1.0, planet_radius=1.0, tag=3.0):\n'
+                    '        super().__init__(planet_mass=planet_mass, planet_radius=planet_radius)\n        self.tag = tag\n\n'
+                    '    @classmethod\n    def input_keywords(cls):\n        return ["myplanet"]\n')
         i = lines.index('[Temperature]')
         j = lines.index('', i)
         lines[i + 1:j] = ['profile_type = custom', 'python_file = %s' % py, 'extra = 5', 'T = 1234']
         for k in ('Isothermal', 'Guillot2010', 'NPoint'):
             expect.pop(k, None)
+        if c['boolform'] % 2 == 0:
+            # a second custom section served by the same python file: each section gets the class of its own kind
+            out.cls('two-custom-sections')
+            i = lines.index('[Planet]')
+            j = lines.index('', i)
+            lines[i + 1:j] = ['planet_type = custom', 'python_file = %s' % py, 'planet_mass = 1.25', 'tag = 8']
+            expect.pop('Planet', None)
     if any(l.startswith('profile_type = tempscalar') for l in lines):
         out.cls('mixin-selector')
     par = os.path.join(tmp, 'input.par')
@@ -694,6 +705,10 @@ def check_sections(out, c, tmp, run_cli):
         out.applies('custom-class')
         if type(tp).__name__ != 'MyIso' or getattr(tp, 'extra', None) != 5.0 or getattr(tp, 'T', None) != 1234.0:
             out.fail('custom-class', 'custom temperature class: got %s extra=%r T=%r' % (type(tp).__name__, getattr(tp, 'extra', None), getattr(tp, 'T', None)))
+        if any(l.startswith('planet_type = custom') for l in lines):
+            pl_ = model.planet
+            if type(pl_).__name__ != 'MyPlanet' or getattr(pl_, 'tag', None) != 8.0:
+                out.fail('custom-class@second-section', 'custom planet from the same file: got %s tag=%r' % (type(pl_).__name__, getattr(pl_, 'tag', None)))
     if any(l.startswith('profile_type = tempscalar') for l in lines):
         from taurex.temperature import Isothermal
         from taurex.mixin.mixins import TempScaler
